@@ -69,7 +69,7 @@ Prog(fam, body) == [fam |-> fam, body |-> body]
 F1a == {Prog("F1a", <<S(Asg("=", d, Bin(op, l, r)))>>) : d \in Dst, op \in RingOps, l \in Leaf, r \in Leaf}
 \* F1b: shifts by constants, plain and compound
 \* (plain shifts into 16-bit destinations are a known defect class, KF-C01-hi16: not generated)
-F1b == {Prog("F1b", <<S(Asg("=", d, Bin(op, l, n)))>>) : d \in Dst8, op \in ShiftOps, l \in Leaf, n \in ShiftCounts}
+F1b == {Prog("F1b", <<S(Asg("=", d, Bin(op, l, n)))>>) : d \in Dst8, op \in ShiftOps, l \in Leaf \cup {Idx("sarr", Num(2)), Idx("sarr", Var("Y")), Var("t")}, n \in ShiftCounts}
        \cup {Prog("F1b", <<S(Asg(op, d, n))>>) : d \in Dst, op \in ShiftOps, n \in ShiftCounts}
 \* F1c: unary operators
 F1c == {Prog("F1c", <<S(Asg("=", d, Un(op, l)))>>) : d \in Dst8, op \in {"-", "~", "!"}, l \in Leaf}
@@ -170,6 +170,7 @@ F4 == {Prog("F4", <<Switch(e, <<Case(<<0>>, <<Set("c", 10)>> \o brk1), Case(<<1,
 \* F5: function calls (functions f, g, k, h, w, m2 are declared by the driver's header)
 Arg == {Var("a"), Var("b"), Var("X"), Var("Y"), Num(3), Idx("arr", Var("X"))}
 CallE == {Call("f", <<x>>) : x \in Arg} \cup {Call("g", <<x, y>>) : x \in Arg, y \in {Var("b"), Num(1), Var("Y")}} \cup {Call("k", <<>>)}
+         \cup {Call("ri", <<>>), Call("rd2", <<Num(2)>>), Call("rd2", <<Var("X")>>)}
 F5a == {Prog("F5a", <<S(Asg("=", d, c))>>) : d \in {Var("a"), Var("X"), Idx("arr", Var("Y"))}, c \in CallE}
        \cup {Prog("F5a", <<S(Asg("=", d, Bin(op, c, r)))>>) : d \in {Var("a"), Var("Y")}, op \in {"+", "-", "&"}, c \in CallE, r \in {Var("b"), Num(1), Var("X")}}
        \cup {Prog("F5a", <<S(Asg("=", d, Bin(op, r, c)))>>) : d \in {Var("a"), Var("Y")}, op \in {"+", "-", "|"}, c \in CallE, r \in {Var("b"), Num(1), Var("X")}}
@@ -251,7 +252,7 @@ FL == {LProg(<<Decl("i1", "i", "char", None), S(Asg("=", LV("i1", "i"), e1)), Bl
 \* F9: operand-kind coverage: every destination kind with every source kind, plain and compound, including
 \* Y-indexed arrays of shorts, pointer dereference and pointer indexing (the addressing modes C04/C13 quantify over)
 Leaf9 == Leaf \cup {Idx("sarr", Var("Y")), Idx("tab", Var("Y")), Deref("p"), Idx("p", Var("Y")), Idx("arr", Num(0)), Idx("sarr", Num(1))}
-Dst9 == Dst \cup {Idx("sarr", Var("Y")), Deref("p"), Idx("p", Var("Y")), Idx("sarr", Num(2)), Var("b")}
+Dst9 == Dst \cup {Idx("sarr", Var("Y")), Deref("p"), Idx("p", Var("Y")), Idx("sarr", Num(2)), Var("b"), Idx("sarr", Var("a")), Idx("arr", Var("b"))}
 F9 == {Prog("F9", <<S(Asg("=", d, l))>>) : d \in Dst9, l \in Leaf9}
       \cup {Prog("F9", <<S(Asg(op, d, l))>>) : op \in {"+", "&"}, d \in Dst9, l \in Leaf9 \ Leaf}
       \cup {Prog("F9", <<S(Asg(op, d, l))>>) : op \in {"+", "&"}, d \in Dst9 \ Dst, l \in Leaf9}
@@ -324,6 +325,40 @@ FT == UNION {{Prog("FT", <<S(Asg("=", d, e))>>) : d \in {Var("c"), Var("s"), Var
                e \in {Cond(cc, x, y), Bin(">>", Cond(cc, x, y), Num(1)), Bin("<", Cond(cc, x, y), Num(5)), Bin("+", Cond(cc, x, y), Var("b"))}} :
              cc \in TCond, x \in TAlt, y \in TAlt \ {Num(200)}}
       \cup {Prog("FT", <<If(Cond(cc, x, y), <<Set("c", 1)>>, <<Set("c", 2)>>)>>) : cc \in TCond, x \in TAlt, y \in TAlt}
+\* F1n: both operands of the top operator are compound (the left result must be parked while the right one is computed)
+F1n == {Prog("F1n", <<S(Asg("=", d, Bin(top, Bin(o1, Var("a"), Var("b")), r)))>>) : d \in {Var("c"), Var("X")}, top \in {"+", "-", "&", "|"}, o1 \in {"+", "&"},
+          r \in {Bin("|", Var("X"), Num(0)), Bin("+", Var("c"), Var("Y")), Bin("&", Idx("arr", Var("X")), Num(15)), Bin("-", Var("b"), Num(1)), Un("-", Var("b")), Bin("&", Var("s"), Num(255)),
+                 Bin("+", Idx("arr", Var("Y")), Idx("arr", Num(1)))}}
+       \cup {Prog("F1n", <<If(Bin(rel, Bin("+", Var("a"), Var("b")), Bin("&", Var("c"), Num(15))), ThenElse[1], ThenElse[2])>>) : rel \in {"==", "<", ">="}}
+\* F3e: postponed ++ / -- in every place an expression can stand: they must take effect exactly once, after the value was used
+\* and before the next statement, loop iteration or call
+F3e == {Prog("F3e", <<For(Asg("=", i, Inc(FALSE, dd, Var("b"))), Bin("<", i, Num(6)), Inc(FALSE, 1, i), <<S(Inc(FALSE, 1, Var("c")))>>)>>) : i \in {Var("a"), Var("X")}, dd \in {1, -1}}
+       \cup {Prog("F3e", <<While(Inc(FALSE, -1, Var("b")), <<S(Inc(FALSE, 1, Var("c")))>>)>>),
+              Prog("F3e", <<Do(<<S(Inc(FALSE, 1, Var("c")))>>, Inc(FALSE, -1, Var("b")))>>),
+              Prog("F3e", <<If(Bin("==", Inc(FALSE, 1, Var("a")), Num(3)), <<Set("c", 1)>>, <<Set("c", 2)>>), S(Asg("=", Var("b"), Var("a")))>>),
+              Prog("F3e", <<If(Inc(FALSE, -1, Var("a")), <<Set("c", 1)>>, <<Set("c", 2)>>), S(Asg("=", Var("b"), Var("a")))>>),
+              Prog("F3e", <<S(Asg("=", Var("c"), Call("f", <<Inc(FALSE, 1, Var("a"))>>))), S(Asg("=", Var("b"), Var("a")))>>),
+              Prog("F3e", <<S(Asg("=", Var("c"), Idx("arr", Inc(FALSE, 1, Var("X"))))), S(Asg("=", Var("b"), Idx("arr", Var("X"))))>>),
+              Prog("F3e", <<S(Asg("=", Var("c"), Bin("+", Inc(FALSE, 1, Var("a")), Inc(FALSE, -1, Var("b"))))), S(Asg("=", Var("X"), Var("a")))>>),
+              Prog("F3e", <<S(Asg("=", Idx("arr", Var("X")), Inc(FALSE, 1, Var("X")))), S(Asg("=", Var("c"), Idx("arr", Num(1))))>>),
+              Prog("F3e", <<Switch(Inc(FALSE, 1, Var("a")), <<Case(<<1>>, <<Set("c", 1), Break>>), Default(<<Set("c", 2)>>)>>), S(Asg("=", Var("b"), Var("a")))>>),
+              Prog("F3e", <<For(Asg("=", Var("X"), Num(0)), Bin("<", Inc(FALSE, 1, Var("X")), Num(4)), None, <<S(Asg("+", Var("c"), Idx("arr", Var("X"))))>>)>>),
+              Prog("F3e", <<S(Asg("=", Var("s"), Inc(FALSE, 1, Var("t")))), S(Asg("=", Var("ss"), Var("t")))>>),
+              Prog("F3e", <<S(Asg("=", Var("c"), Inc(FALSE, 1, Idx("arr", Var("Y"))))), S(Inc(TRUE, 1, Var("Y"))), S(Asg("=", Var("b"), Idx("arr", Var("Y"))))>>)}
+\* F7d: a value is stored, the destination is tested at once (what the store leaves in the flags belief must be true of the
+\* WHOLE destination, for every destination kind)
+F7d == {Prog("F7d", <<S(Asg("=", d, v)), If(t, <<Set("c", 1)>>, <<Set("c", 2)>>)>>) :
+          d \in {Var("s"), Var("ss"), Idx("sarr", Var("X")), Idx("sarr", Var("Y")), Idx("sarr", Num(1)), Var("a"), Idx("arr", Var("X")), Var("Y")},
+          v \in {Num(5), Num(256), Var("b"), Var("t")}, t \in {"plain", "not", "ne0", "eq0"}}
+F7dProg(p) == LET d == p.body[1].e.lhs
+                  tt == p.body[2].c
+              IN [p EXCEPT !.body[2].c = CASE tt = "plain" -> d [] tt = "not" -> Un("!", d) [] tt = "ne0" -> Bin("!=", d, Num(0)) [] tt = "eq0" -> Bin("==", d, Num(0))]
+F7dAll == {F7dProg(p) : p \in F7d}
+\* F2d: else-if chains after && / || conditions (what the else branch may assume about the flags differs between the paths that reach it)
+F2d == {Prog("F2d", <<If(Bin(lop, p, q), <<Set("X", 1)>>, <<If(r, <<Set("X", 2)>>, <<Set("X", 3)>>)>>)>>) : lop \in {"&&", "||"}, p \in {Var("a"), Bin("==", Var("a"), Num(1))},
+          q \in {Var("b"), Bin("<", Var("b"), Num(5))}, r \in {Var("b"), Var("a"), Un("!", Var("b")), Bin("==", Var("b"), Num(0))}}
+       \cup {Prog("F2d", <<If(p, <<Set("X", 1)>>, <<If(Bin(lop, q, r), <<Set("X", 2)>>, <<Set("X", 3)>>)>>)>>) : lop \in {"&&", "||"}, p \in {Var("a"), Bin("<", Var("a"), Var("b"))},
+          q \in {Var("b"), Var("a")}, r \in {Var("c"), Un("!", Var("a"))}}
 \* FK: identifiers that begin with a keyword (elsev, returnv, dov) right where the keyword could stand
 FK == {Prog("FK", <<If(g, <<Set("b", 1)>>, <<>>), Set("elsev", 2), S(Asg("=", Var("c"), Var("elsev")))>>) : g \in {Var("a"), Bin("<", Var("a"), Var("b"))}}
       \cup {Prog("FK", <<Set("returnv", 3), S(Inc(FALSE, 1, Var("returnv"))), S(Asg("=", Var("c"), Var("returnv")))>>),
@@ -367,7 +402,7 @@ Asm(t, eff, n, nm) == [k |-> "asm", text |-> t, eff |-> eff, n |-> n, name |-> n
 XPool == {Load(Var("a")), Load(Var("PORT1")), Load(Num(5)), Load(Idx("arr", Var("X"))), Store(Var("b")), Store(Var("PORT2")), Store(Idx("arr", Var("Y"))),
           Strobe("PORT3"), Strobe("PORT1"), Sleep(2), Sleep(5), Asm("NOP", "none", 0, "a"), Asm("LDA #7", "lda", 7, "a"), Asm("STA PORT2", "sta", 0, "PORT2"),
           Asm("INX", "inx", 0, "a"), S(Asg("=", Var("a"), Var("b"))), S(Asg("=", Var("X"), Var("a"))), S(Inc(FALSE, 1, Var("a"))), S(Asg("=", Var("b"), Num(5))),
-          If(Var("a"), <<Set("c", 1)>>, <<>>)}
+          If(Var("a"), <<Set("c", 1)>>, <<>>), Sleep(7), Sleep(9), If(Var("X"), <<Set("c", 1)>>, <<Set("c", 2)>>), S(Asg("=", Var("Y"), Num(0)))}
 \* the same statements reached through (inline) functions of the driver's library: rdp = load(*PORT1), rda = load(a); store(*PORT2),
 \* wrp = store(*PORT2), stb = strobe(PORT3), slp = csleep(7)
 XCalls == {S(Call("rdp", <<>>)), S(Call("rda", <<>>)), S(Call("wrp", <<>>)), S(Call("stb", <<>>)), S(Call("slp", <<>>))}
@@ -419,7 +454,7 @@ RW == {Pair2("commute", <<S(Asg("=", d, Bin(op, l, r)))>>, <<S(Asg("=", d, Bin(o
       \cup {Pair2("callbody", <<S(Asg("=", d, Call("g", <<x, y>>)))>>, <<S(Asg("=", d, Bin("-", x, y)))>>) : d \in {Var("a"), Var("Y")}, x \in Arg, y \in {Var("b"), Num(1)}}
       \cup {Pair2("callbody", <<S(Call("h", <<>>)), S(Asg("=", Var("b"), Var("a")))>>, <<S(Inc(FALSE, 1, Var("a"))), S(Asg("=", Var("b"), Var("a")))>>)}
       \cup {Pair2("callbody", <<S(Call("w", <<x>>))>>, <<S(Asg("=", Var("c"), x))>>) : x \in Arg}
-AllFams == FK \cup F5e \cup FT \cup FG \cup FP \cup FW \cup F3d \cup F4b \cup F5d \cup F8f \cup F8h \cup F8g \cup FL \cup F5c \cup F6 \cup F8 \cup F9 \cup F1a \cup F1b \cup F1c \cup F1d \cup F1e \cup F1f \cup F1g \cup F2a \cup F2b \cup F2c \cup F2z \cup F2s
+AllFams == F3e \cup F7dAll \cup F1n \cup F2d \cup FK \cup F5e \cup FT \cup FG \cup FP \cup FW \cup F3d \cup F4b \cup F5d \cup F8f \cup F8h \cup F8g \cup FL \cup F5c \cup F6 \cup F8 \cup F9 \cup F1a \cup F1b \cup F1c \cup F1d \cup F1e \cup F1f \cup F1g \cup F2a \cup F2b \cup F2c \cup F2z \cup F2s
            \cup F3a \cup F3b \cup F3c \cup F4 \cup F5a \cup F5b \cup F7a \cup F7b \cup F7c
 Family ==
   CASE Fam = "ALL" -> AllFams [] Fam = "RW" -> RW [] Fam = "FX" -> FX \cup FS
@@ -428,7 +463,7 @@ Family ==
     [] Fam = "F2a" -> F2a [] Fam = "F2b" -> F2b [] Fam = "F2c" -> F2c [] Fam = "F2z" -> F2z [] Fam = "F2s" -> F2s
     [] Fam = "F3a" -> F3a [] Fam = "F3b" -> F3b [] Fam = "F3c" -> F3c
     [] Fam = "F4" -> F4 [] Fam = "F5a" -> F5a [] Fam = "F5b" -> F5b
-    [] Fam = "F7a" -> F7a [] Fam = "F7b" -> F7b [] Fam = "F7c" -> F7c [] Fam = "FW" -> FW [] Fam = "FL" -> FL [] Fam = "F5c" -> F5c [] Fam = "F6" -> F6 [] Fam = "F8" -> F8 [] Fam = "F8g" -> F8g [] Fam = "FP" -> FP [] Fam = "FG" -> FG [] Fam = "FT" -> FT [] Fam = "F5e" -> F5e [] Fam = "FK" -> FK [] Fam = "F8f" -> F8f [] Fam = "F3d" -> F3d [] Fam = "F4b" -> F4b [] Fam = "F5d" -> F5d [] Fam = "F9" -> F9
+    [] Fam = "F7a" -> F7a [] Fam = "F7b" -> F7b [] Fam = "F7c" -> F7c [] Fam = "FW" -> FW [] Fam = "FL" -> FL [] Fam = "F5c" -> F5c [] Fam = "F6" -> F6 [] Fam = "F8" -> F8 [] Fam = "F8g" -> F8g [] Fam = "FP" -> FP [] Fam = "FG" -> FG [] Fam = "FT" -> FT [] Fam = "F5e" -> F5e [] Fam = "FK" -> FK [] Fam = "F1n" -> F1n [] Fam = "F2d" -> F2d [] Fam = "F7d" -> F7dAll [] Fam = "F3e" -> F3e [] Fam = "F8f" -> F8f [] Fam = "F3d" -> F3d [] Fam = "F4b" -> F4b [] Fam = "F5d" -> F5d [] Fam = "F9" -> F9
 
 VARIABLE prog
 Init == prog \in Family
